@@ -3,9 +3,9 @@ CONSTANTS
   Agents = {"a1", "a2"}
   Seeders = {"s1"}
   Corrupters = {"x1"}
-  NPs = {2}
+  NPs = {0, 1, 3}
   Maxcs <- MaxcOne
-  Pipes = {1}
+  Pipes = {1, 2}
   MayLeave = {"a2"}
   Verify = TRUE
 INVARIANT Inv
